@@ -414,6 +414,7 @@ def run(tier, seed):
     bi = [(sp, dict(o, backward=True, rev=False)) for sp, o in ai if not sp.get("order") and not any(k == "SS" for _, _, k in sp["links"])]
     col.merge(stepcheck.explore(bi, [mon_c11], 0, 0, seed=seed))
     col.merge(stepcheck.explore([(sp, dict(o, rule=r)) for sp, o in stepcheck.edited_items() for r in ("TSLACK", "SPT", "LPT")], [mon_c11], 0, 0, seed=seed))
+    col.merge(stepcheck.explore(F.scale_items(("TSLACK", "SPT", "LPT", "FIFO", "LRPT")), [mon_c11], 0, 0, seed=seed))  # medium-sized models
     ri = rule_items(tier)
     col.merge(stepcheck.explore(ri, [mon_rules_accepted, mon_c11], 3, 1, seed=seed))
     meta = {
